@@ -374,6 +374,7 @@ static void case_elf(char **tok, int ntok)
 
 #define MAXMOD 64
 static char *modpath[MAXMOD];
+static char *modbid[MAXMOD];
 
 static void sid_str(char *buf, unsigned long sid)
 {
@@ -396,11 +397,14 @@ static void case_scen(char **tok, int ntok, const char *line)
 		.tasks = RB_ROOT,
 	};
 	int i = 1, loaded = 0, first = 1, m;
+	char *symdir = xstrdup(dir);
 
 	clean_dir();
 	for (m = 0; m < MAXMOD; m++) {
 		free(modpath[m]);
+		free(modbid[m]);
 		modpath[m] = NULL;
+		modbid[m] = NULL;
 	}
 
 	printf("MODEL %s\nIMPL", line);
@@ -418,14 +422,22 @@ static void case_scen(char **tok, int ntok, const char *line)
 			nop++;
 		i += nop;
 
-		if (!strcmp(op[0], "MODT") && nop == 3) {
+		if (!strcmp(op[0], "WS") && nop == 2) {
+			/* --with-syms: symbol files live in a directory other than the data directory */
+			if (!strcmp(op[1], "1")) {
+				free(symdir);
+				xasprintf(&symdir, "%s/symdir", dir);
+				mkdir(symdir, 0755);
+			}
+		}
+		else if (!strcmp(op[0], "MODT") && nop == 3) {
 			unsigned id = strtoul(op[1], NULL, 16) % MAXMOD;
 			size_t len;
 			char *text = unhex(op[2], &len);
 			char *file = NULL;
 
 			xasprintf(&modpath[id], "/nonexistent-c10/mod%x.so", id);
-			xasprintf(&file, "%s/mod%x.so.sym", dir, id);
+			xasprintf(&file, "%s/mod%x.so.sym", symdir, id);
 			write_file(file, text, len);
 			free(file);
 			free(text);
@@ -437,11 +449,11 @@ static void case_scen(char **tok, int ntok, const char *line)
 			char *file = NULL;
 
 			modpath[id] = unhex(op[2], NULL);
+			modbid[id] = bid;
 			parse_table(op + 4, nop - 4, &st);
-			xasprintf(&file, "%s/%s.sym", dir, uftrace_basename(modpath[id]));
+			xasprintf(&file, "%s/%s.sym", symdir, uftrace_basename(modpath[id]));
 			save_module_symbol_file(&st, modpath[id], bid, file, 0);
 			free(file);
-			free(bid);
 			free_table(&st);
 		}
 		else if (!strcmp(op[0], "S") && nop >= 5) {
@@ -467,8 +479,11 @@ static void case_scen(char **tok, int ntok, const char *line)
 				id %= MAXMOD;
 				if (k == 5 && modpath[id])
 					exe = modpath[id];
-				fprintf(fp, "%" PRIx64 "-%" PRIx64 " r-xp 00000000 08:03 4096 %s\n", a, b,
+				fprintf(fp, "%" PRIx64 "-%" PRIx64 " r-xp 00000000 08:03 4096 %s", a, b,
 					modpath[id] ? modpath[id] : "/nonexistent-c10/none");
+				if (modbid[id] && modbid[id][0])
+					fprintf(fp, " build-id:%s", modbid[id]);
+				fprintf(fp, "\n");
 			}
 			if (strcmp(op[4], "-")) {
 				uint64_t st = strtoull(op[4], NULL, 16);
@@ -508,7 +523,7 @@ static void case_scen(char **tok, int ntok, const char *line)
 		else {
 			/* queries: everything before them is replayed through the real reader */
 			if (!loaded) {
-				if (read_task_txt_file(&link, dir, dir, true, false, false) < 0) {
+				if (read_task_txt_file(&link, dir, symdir, true, false, false) < 0) {
 					printf(" read-task-failed");
 					break;
 				}
@@ -571,6 +586,7 @@ static void case_scen(char **tok, int ntok, const char *line)
 	delete_sessions(&link);
 	unload_module_symtabs();
 	clean_dir();
+	free(symdir);
 }
 
 int main(int argc, char *argv[])
